@@ -183,18 +183,18 @@ def scenarios(tier, seed):
             run("w%d-%d" % (u, m), udw=u, mdw=m, mode="both", orders="asc") for u, m in [(32, 64), (64, 128), (16, 256), (32, 512), (128, 256)]]))
         out.append(dict(name="down-widths", kind="rand", runs=[
             run("w%d-%d" % (u, m), udw=u, mdw=m, mode="both") for u, m in [(64, 32), (128, 32), (256, 64), (512, 64), (128, 64)]]))
-    # spec -> code: TLC behaviours of the design models replayed into the real converter (lock-step compared)
-    nb, dp = (16, 90) if q else (60, 140)
+    # spec -> code: TLC behaviours of the design models replayed into the real converter (lock-step compared).
+    # The up-converter scenarios replay behaviours of BOTH model variants (pinned tree / proposed next_cmd term): every
+    # replay is a legal stimulus judged by T_Conv; MODEL-DRIFT is reported only if NEITHER variant is lock-step equal to the code.
+    nb, dp = (12, 90) if q else (40, 140)
+    nc = 8 if q else 12
     for R in ((2, 4) if q else (2, 4, 8)):
-        for fix in (False, True):
-            out.append(dict(name="tlcsim-up%d-%s-asc" % (R, "fixmodel" if fix else "pinnedmodel"), kind="tlcsim", model="up", R=R, num=nb, depth=dp,
-                            seed=seed + 11 * R, mc=dict(R=R, MaxCmds=8 if q else 12, Fix=fix, Orders="asc", Masks=[0, 1], Flush=True, Stall=True, Lmax=5)))
-        out.append(dict(name="tlcsim-up%d-pinnedmodel-any" % R, kind="tlcsim", model="up", R=R, num=nb, depth=dp, seed=seed + 13 * R,
-                        mc=dict(R=R, MaxCmds=8 if q else 12, Fix=False, Orders="any", Masks=[0, 1], Flush=True, Stall=True, Lmax=5)))
-        out.append(dict(name="tlcsim-up%d-fixmodel-any" % R, kind="tlcsim", model="up", R=R, num=nb, depth=dp, seed=seed + 17 * R,
-                        mc=dict(R=R, MaxCmds=8 if q else 12, Fix=True, Orders="any", Masks=[0, 1], Flush=True, Stall=True, Lmax=5)))
+        for orders in ("asc", "any"):
+            com = dict(R=R, MaxCmds=nc, Orders=orders, Masks=[0, 1], Flush=True, Stall=True, Lmax=5)
+            out.append(dict(name="tlcsim-up%d-%s" % (R, orders), kind="tlcsim", model="up", R=R, num=nb, depth=dp, seed=seed + 11 * R + (orders == "any"),
+                            variants=[["pinned", dict(com, Fix=False)], ["fix", dict(com, Fix=True)]]))
         out.append(dict(name="tlcsim-down%d" % R, kind="tlcsim", model="down", R=R, num=nb, depth=dp, seed=seed + 19 * R,
-                        mc=dict(R=R, MaxCmds=8 if q else 12, Masks=[2 ** R - 1, 1, 2 ** R - 2], Lmax=5)))
+                        variants=[["code", dict(R=R, MaxCmds=nc, Masks=[2 ** R - 1, 1, 2 ** R - 2], Lmax=5)]]))
     out.append(dict(name="tlccex-up2-pinnedmodel", kind="tlccex", model="up", R=2, seed=seed, mc=dict(R=2, MaxCmds=3, Orders="any")))
     only = os.environ.get("C07_ONLY")          # development aid: substring filter
     if only:
@@ -290,7 +290,9 @@ def _exec_rand(sc, workdir):
                            nonascending_pairs=na, executions=len(raws), stock_differential_runs=ndiff))
 
 
-def _replay(sc, states_list, workdir):
+def _replay(sc, groups, workdir, drift_matters=True):
+    """groups: list of (variant name, list of behaviours (parsed TLC states)).  Replays every behaviour into the real
+    converter, judges all real traces with T_Conv in one file, compares each replay in lock-step with its model variant."""
     kind, R = sc["model"], sc["R"]
     if kind == "up":
         base = dict(udw=8, mdw=8 * R, mode="both", maw=10, lat=[3, 5], seed=sc.get("seed", 0))
@@ -298,60 +300,71 @@ def _replay(sc, states_list, workdir):
     else:
         base = dict(udw=8 * R, mdw=8, mode="both", maw=10, lat=[3, 5], seed=sc.get("seed", 0))
         amap = [3, (1 << (10 - convdut.log2(R))) - 1]
-    raws, cyc, mism, first = [], 0, 0, None
-    keys = set()
-    for i, st in enumerate(states_list):
-        if len(st) < 3:
-            continue
-        s2 = dict(base, name="%s#%d" % (sc["name"], i), script=convdut.script_from_behaviour(st, kind, R, amap))
-        r = convdut.run(s2)
-        n, mm = convdut.lockstep(st, r, kind, R, amap)
-        cyc += n
-        if mm:
-            mism += 1
-            first = first or dict(behaviour=i, **mm)
-        raws.append(r)
-        keys |= _keys(r["header"], r["cmds"])
+    raws, keys, per = [], set(), {}
+    for vname, sl in groups:
+        cyc, mism, first = 0, 0, None
+        for i, st in enumerate(sl):
+            if len(st) < 3:
+                continue
+            s2 = dict(base, name="%s/%s#%d" % (sc["name"], vname, i), script=convdut.script_from_behaviour(st, kind, R, amap))
+            r = convdut.run(s2)
+            n, mm = convdut.lockstep(st, r, kind, R, amap)
+            if mm:
+                mism += 1
+                first = first or dict(behaviour=i, **mm)
+            else:
+                cyc += n
+            raws.append(r)
+            keys |= _keys(r["header"], r["cmds"])
+        per[vname] = dict(replays=len(sl), lockstep_cycles=cyc, mismatching_replays=mism, first_mismatch=first)
     if not raws:
         raise RuntimeError("TLC produced no behaviour for %s" % sc["name"])
     v, bad, nev = _judge(workdir, raws)
-    sample = dict(replays=len(raws), lockstep_cycles=cyc, lockstep_mismatching_replays=mism, first_mismatch=first,
-                  tlc=v["info"])
-    return dict(bad=bad, evaluations=nev, nontrivial=[list(k) for k in sorted(keys)], traces=len(raws), sample=sample,
+    bound = sorted(k for k, x in per.items() if x["mismatching_replays"] == 0)
+    notes = []
+    if drift_matters and not bound:
+        notes.append("MODEL-DRIFT module=%s scenario=%s no model variant is lock-step equal to the code: %s" % (
+            "D_UpConverter" if kind == "up" else "D_DownConverter", sc["name"], json.dumps({k: x["first_mismatch"] for k, x in per.items()})[:400]))
+    ls = sum(per[k]["lockstep_cycles"] for k in bound)
+    sample = dict(replays=len(raws), variants=per, lockstep_equal_variants=bound, tlc=v["info"])
+    return dict(bad=bad, evaluations=nev, nontrivial=[list(k) for k in sorted(keys)], traces=len(raws), sample=sample, notes=notes,
                 stats=dict(cycles=sum(r["cycles"] for r in raws), user_cmds=sum(len(r["cmds"]) for r in raws), events=nev,
-                           replays=len(raws), lockstep_cycles=cyc, lockstep_mismatching_replays=mism),
-                lockstep=dict(model=sc["name"], cycles=cyc, mismatching=mism, replays=len(raws)))
+                           replays=len(raws)),
+                lockstep=ls if drift_matters else 0, bound=dict(scenario=sc["name"], variants=bound, all=sorted(per)))
 
 
 ONLY = {"pend", "flush", "mready", "io", "ncmd"}
 
 
 def _exec_tlcsim(sc, workdir):
-    mc = dict(sc["mc"])
-    cfg = (up_cfg if sc["model"] == "up" else down_cfg)(invariants=False, **{k: (tuple(v) if isinstance(v, list) else v) for k, v in mc.items()})
     mod = "MC_UpConverter" if sc["model"] == "up" else "MC_DownConverter"
-    d = os.path.join(workdir, "sim")
-    shutil.rmtree(d, ignore_errors=True)
-    rc, out = tlc.simulate(mod, cfg, d, num=sc["num"], depth=sc["depth"], seed=sc["seed"] + 1, out_prefix=os.path.join(d, "beh"), timeout=600)
-    files = sorted(glob.glob(os.path.join(d, "beh_*")))
-    if rc != 0 or not files:
-        raise RuntimeError("tlc -simulate failed for %s: %s" % (sc["name"], out[-1500:]))
-    sl = []
-    for f in files:
-        with open(f) as fh:
-            sl.append(tlaparse.parse_states(fh.read(), only=ONLY))
-    shutil.rmtree(d, ignore_errors=True)
-    return _replay(sc, sl, workdir)
+    groups = []
+    for vi, (vname, mc) in enumerate(sc["variants"]):
+        cfg = (up_cfg if sc["model"] == "up" else down_cfg)(invariants=False, **{k: (tuple(v) if isinstance(v, list) else v) for k, v in mc.items()})
+        d = os.path.join(workdir, "sim%d" % vi)
+        shutil.rmtree(d, ignore_errors=True)
+        rc, out = tlc.simulate(mod, cfg, d, num=sc["num"], depth=sc["depth"], seed=sc["seed"] + 1 + vi, out_prefix=os.path.join(d, "beh"), timeout=900)
+        files = sorted(glob.glob(os.path.join(d, "beh_*")))
+        if rc != 0 or not files:
+            raise RuntimeError("tlc -simulate failed for %s: %s" % (sc["name"], out[-1500:]))
+        sl = []
+        for f in files:
+            with open(f) as fh:
+                sl.append(tlaparse.parse_states(fh.read(), only=ONLY))
+        shutil.rmtree(d, ignore_errors=True)
+        groups.append((vname, sl))
+    return _replay(sc, groups, workdir)
 
 
 def _exec_tlccex(sc, workdir):
-    """Spec -> code: TLC's counter-example to `pinned up-converter model satisfies R_Conv for all orders` becomes a stimulus."""
+    """Spec -> code: TLC's counter-example to `pinned up-converter model satisfies R_Conv for all orders` becomes a stimulus.
+    (Lock-step is informative only here: once the repair is in the tree the code no longer follows the pinned model.)"""
     cfg = up_cfg(**sc["mc"])
-    r = tlc.model_check("MC_UpConverter", cfg, os.path.join(workdir, "mc"), workers=2, timeout=600, xmx="4g")
+    r = tlc.model_check("MC_UpConverter", cfg, os.path.join(workdir, "mc"), workers=2, timeout=900, xmx="4g")
     if r["ok"]:
         raise RuntimeError("expected a counter-example from the pinned up-converter model")
     st = tlaparse.parse_states(r["out"], only=ONLY)
-    res = _replay(sc, [st], workdir)
+    res = _replay(sc, [("pinned", [st])], workdir, drift_matters=False)
     res["sample"]["model_invariant_violated"] = r["violated"]
     res["sample"]["counterexample_states"] = len(st)
     return res
@@ -373,14 +386,10 @@ def finding_key(entry, sc):
 
 
 def post(ctx, results, mresults):
-    ls = [r["lockstep"] for _, r in results if not r.get("error") and r.get("lockstep")]
-    bound = sorted(x["model"] for x in ls if x["mismatching"] == 0)
-    drift = sorted(x["model"] for x in ls if x["mismatching"])
-    for x in ls:
-        if x["mismatching"]:
-            print("MODEL-DRIFT model=%s replays=%d mismatching=%d (not a verdict: the real traces are judged by T_Conv)" % (x["model"], x["replays"], x["mismatching"]))
-    return dict(design_model_bound=bound, design_model_drift=drift,
-                lockstep_cycles=sum(x["cycles"] for x in ls))
+    """Which model variant the tree is bound to (B2), per replay scenario; design_model_bound / lockstep_cycles themselves
+    are computed by the runner from `lockstep` and MODEL-DRIFT notes."""
+    bound = {r["bound"]["scenario"]: r["bound"]["variants"] for _, r in results if not r.get("error") and r.get("bound")}
+    return dict(lockstep_equal_model_variants=bound)
 
 
 if __name__ == "__main__":
